@@ -461,6 +461,40 @@ func c05Unsupported(c *run.C) {
 		c.Violationf("accepted-unsupported", "cborl:reported-unsupported:"+feat, "cborl parser reported a complete value for an item using %s before failing: %s\ndoc=%s", feat, m.Events, hexs(doc))
 		return
 	}
+	// "never reported as some other value": the refusal must stand when the
+	// caller makes its next call on the same decoder / parser
+	m2 := mon.NewMonitor()
+	var first error
+	afterFirst := -1
+	ok2, _ := guardCall(c, "cborl.after-refusal", func() int { return m2.NEvents }, func() {
+		if c.Idx%2 == 0 {
+			d := codec.CBOR.NewBytesDecoder(append(append([]byte{}, doc...), 1, 2, 3, 4, 5, 6, 7, 8), m2.WithRefs())
+			for i := 0; i < 4; i++ {
+				mon.Progress++
+				err := d.Next()
+				if err != nil && first == nil {
+					first, afterFirst = err, m2.NEvents
+				}
+			}
+		} else {
+			p := codec.CBOR.NewParser(m2.WithRefs())
+			for _, ch := range [][]byte{doc, {1, 2, 3, 4}, {5, 6, 7, 8}, {0x01}} {
+				mon.Progress++
+				_, err := p.Write(ch)
+				if err != nil && first == nil {
+					first, afterFirst = err, m2.NEvents
+				}
+			}
+		}
+	})
+	if !ok2 {
+		return
+	}
+	if first != nil && m2.NEvents > afterFirst {
+		c.Violationf("accepted-unsupported", "cborl:reported-after-refusal:"+feat, "after refusing an item using %s (%v) the same cborl decoder/parser went on to report %d more events on the caller's next calls: %s\ndoc=%s", feat, first, m2.NEvents-afterFirst, m2.Events[afterFirst:], hexs(doc))
+		return
+	}
+	c.Observe("calls_after_refusal", 3)
 	c.Observe("unsupported_refused_"+feat, 1)
 	c.Nontrivial(gen.HashBytes(doc))
 	c.Sample("cbor-unsupported-"+feat, hexs(doc))
